@@ -4,7 +4,7 @@ import json, subprocess
 
 CLAIMED = {
  "C05": dict(
-   text="Deductive proof, function by function, that every critical section of pubsub.Queue (Add, BlockingAdd, Remove, Wait, Len, Close and the helpers doAdd/popFront/unsafeWaitWhileEmpty, the three limit trackers) preserves the queue's representation invariant and has exactly the effect of the sequential FIFO + limit/credit specification on a ghost sequence view; guarded state is havocked at every Lock / cond.Wait so the proof covers all interleavings; linearizability follows by the lock-atomicity argument of DESIGN 5.3.",
+   text="Deductive proof, function by function, that every critical section of pubsub.Queue (Add, BlockingAdd, Remove, Wait, Len, Close and the helpers doAdd/popFront/unsafeWaitWhileEmpty, the three limit trackers, and the constructors NewQueue / NewUnlimitedQueue / QueueOptions.Validate / newQueueLimitTracker, which establish the invariant for every valid option set) preserves the queue's representation invariant and has exactly the effect of the sequential FIFO + limit/credit specification on a ghost sequence view; guarded state is havocked at every Lock / cond.Wait so the proof covers all interleavings; linearizability follows by the lock-atomicity argument of DESIGN 5.3.",
    ref="DESIGN.md 5.3, 7/C05",
    note="Trusted: sync.Mutex/sync.Cond/context models, go/ssa, SMT solvers, lock-atomicity => linearizability theorem (DESIGN 5.3); int as mathematical integer, float64 credit as Real.",
    technique="contract-based deductive verification: VCs generated from go/ssa of /repo by govc, discharged by z3/cvc5"),
@@ -21,7 +21,7 @@ CLAIMED = {
 }
 
 CLAIMED["C06"] = dict(
-   text="Deductive proof, function by function, that every critical section of pubsub.Deque (PushFront/PushBack, PopFront/PopBack, ForcePushFront/ForcePushBack, WaitFront/WaitBack, WaitPushFront/WaitPushBack, Len, Close, the kernel addAfter/pop/waitPop/waitPushAfter/element.wait, makeDeque, the three limit trackers) preserves the circular doubly-linked representation invariant and has exactly the effect of the sequential capacity-bounded double-ended queue on a ghost sequence view: pops take the element currently at the requested end, a refused push has no effect, a Force push on a full deque evicts exactly one element from the opposite end and then succeeds, after Close pushes fail with ErrQueueClosed and pops report not-ok, Len <= capacity; blocking operations: every section before the last is a stutter and a context error leaves the view unchanged. Guarded state is havocked at every Lock / cond.Wait so the proof covers all interleavings; linearizability follows by the lock-atomicity argument of DESIGN 5.3. Not under contract: NewDeque/DequeOptions.Validate (that the tracker handed to the deque is one of the three kinds with capacity >= 1 is part of the lock invariant, established by construction but not proved), iterators/Distributor (C20).",
+   text="Deductive proof, function by function, that every critical section of pubsub.Deque (PushFront/PushBack, PopFront/PopBack, ForcePushFront/ForcePushBack, WaitFront/WaitBack, WaitPushFront/WaitPushBack, Len, Close, the kernel addAfter/pop/waitPop/waitPushAfter/element.wait, makeDeque, the three limit trackers) preserves the circular doubly-linked representation invariant and has exactly the effect of the sequential capacity-bounded double-ended queue on a ghost sequence view: pops take the element currently at the requested end, a refused push has no effect, a Force push on a full deque evicts exactly one element from the opposite end and then succeeds, after Close pushes fail with ErrQueueClosed and pops report not-ok, Len <= capacity; blocking operations: every section before the last is a stutter and a context error leaves the view unchanged. Guarded state is havocked at every Lock / cond.Wait so the proof covers all interleavings; linearizability follows by the lock-atomicity argument of DESIGN 5.3. The constructors are under contract too: DequeOptions.Validate / QueueOptions.Validate accept exactly the consistent option sets and NewDeque establishes the deque invariant (tracker of one of the three kinds, capacity >= 1) for every valid configuration. Not under contract: NewUnlimitedDeque (risky.Force wrapper), Distributor closures.",
    ref="DESIGN.md 5.3, 7/C06",
    note="Trusted: sync.Mutex/sync.Cond/context models, go/ssa, SMT solvers, lock-atomicity => linearizability theorem (DESIGN 5.3); int as mathematical integer, float64 credit as Real; dq.mtx is set once at construction.",
    technique="contract-based deductive verification: VCs generated from go/ssa of /repo by govc (ghost sequence view + inverse index, quantified invariants), discharged by z3/cvc5")
